@@ -72,7 +72,7 @@ ERRORS = {"TypeError": ".type", "ValueError": ".value", "ZeroDivisionError": ".z
 
 LEAN_TY = {"int": "Int", "nat": "Nat", "num": "PyNum", "val": "PyVal", "optval": "Option PyVal", "poly": "ZPoly",
            "bool": "Bool", "dict": "MPoly PyNum", "fn_num": "PyNum → PyNum", "fn_poly2": "ZPoly → ZPoly → ZPoly",
-           "hashed": "Bool"}
+           "hashed": "Bool", "polyref": "(Option ZPoly)"}
 
 
 def lname(n):
@@ -129,6 +129,11 @@ def coerce(e, ty, node=None):
             return E("(PyVal.num (PyNum.int %s))" % e.lean, "val", binds=e.binds)
     if e.ty == "int" and ty == "num":
         return E("(PyNum.int %s)" % e.lean, "num", binds=e.binds)
+    if e.ty == "expo" and ty == "int":
+        # an exponent in the position of a POWER (dictionary key): only its integral value matters (2.0 and 2 are one key)
+        return E(e.lean, "int", binds=e.binds)
+    if e.ty == "poly" and ty == "polyref":
+        return E("(some %s)" % e.lean, "polyref", binds=e.binds)      # a NEW instance (`none` = the object `self` itself)
     if e.ty == "num" and ty == "val":
         return E("(PyVal.num %s)" % e.lean, "val", binds=e.binds)
     if e.ty == "dict" and ty == "pairs" or e.ty == "pairs" and ty == "dict":
@@ -151,7 +156,7 @@ def sub_key(node):
 
 ISINST = {  # type of the value -> the classes it is an instance of (every other class of the vocabulary: not)
     "numlist": {"list"}, "pairs": {"dict"}, "dict": {"dict"}, "poly": {"Poly"}, "none": set(),
-    "num": None, "intlit": None, "int": None, "val": None,
+    "num": None, "intlit": None, "int": None, "val": None, "expo": None,
 }
 KNOWN_CLASSES = {"list", "dict", "Poly", "float", "Stream"}
 
@@ -189,6 +194,8 @@ def tr_source(node, cx):
         d = tr_expr(node, cx)
         if d.ty in ("pairs",):
             return d
+    if isinstance(node, ast.Call) and isinstance(node.func, ast.Attribute) and node.func.attr == "terms":
+        return tr_call(node, cx)
     fail(node, "unsupported iterable")
 
 
@@ -386,6 +393,45 @@ def tr_call(node, cx):
             if e.ty != "bool" or e.binds:
                 fail(node, "all(...) of non-booleans")
             return E("%s.all (fun %s => %s)" % (src.lean, lam, e.lean), "bool")
+        if n == "reduce" and len(node.args) == 2 and not node.keywords and isinstance(node.args[0], ast.Name) \
+                and node.args[0].id in cx.funcs:
+            fn = cx.funcs[node.args[0].id]
+            seq = tr_expr(node.args[1], cx)
+            a = fn.args
+            if a.vararg or a.kwarg or a.kwonlyargs or a.defaults or len(a.args) != 2 or seq.ty != "pairs" or seq.binds:
+                fail(node, "reduce(step, pairs) shape")
+            if ("nonempty", seq.lean) not in cx.facts:
+                fail(node, "reduce without an initial value over a sequence not known to be non-empty")
+            c = cx.child()
+            c.ret, c.fx, c.mut = "pair", False, False
+            c.locals = dict(cx.locals)
+            ps = [lname(p.arg) for p in a.args]
+            for p_, nm in zip(a.args, ps):
+                c.env[p_.arg] = E(nm, "pair")
+            body = tr_block(fn.body, c, "      ", fn)
+            return E("(Py.reduce1 (fun %s %s =>\n%s) %s)" % (ps[0], ps[1], "\n".join(body), seq.lean), "pair")
+        if n == "sum" and len(node.args) == 1 and not node.keywords and isinstance(node.args[0], ast.GeneratorExp):
+            g = tr_comp(node.args[0], cx)
+            if g.ty != "list:num" or g.binds:
+                fail(node, "sum(...) of kind %s" % g.ty)
+            return E("(%s.foldl (fun acc x => acc + x) (PyNum.int 0))" % g.lean, "num")      # sum starts from the int 0
+        if n == "reduce" and len(node.args) == 2 and not node.keywords:
+            # reduce(operator.mul, [A] * C + [B]): A, B instances, C an exponent-valued count
+            op, seq = node.args
+            if not (is_attr(op, "operator", "mul") and isinstance(seq, ast.BinOp) and isinstance(seq.op, ast.Add)
+                    and isinstance(seq.left, ast.BinOp) and isinstance(seq.left.op, ast.Mult)
+                    and isinstance(seq.left.left, ast.List) and len(seq.left.left.elts) == 1
+                    and isinstance(seq.right, ast.List) and len(seq.right.elts) == 1 and "expo.kind" in cx.env):
+                fail(node, "reduce(...) that is not reduce(operator.mul, [A] * C + [B])")
+            a = tr_expr(seq.left.left.elts[0], cx)
+            cnt = tr_expr(seq.left.right, cx)
+            last = seq.right.elts[0]
+            b = tr_expr(last, cx)
+            if a.ty != "poly" or b.ty != "poly" or cnt.ty != "expo" or not is_name(last, "self"):
+                fail(node, "reduce(operator.mul, [A] * C + [self]) with A of kind %s, C of kind %s" % (a.ty, cnt.ty))
+            t = cx.fresh()
+            return E("(Py.reduceMul py_mul %s %s)" % (t, b.lean), "polyref",
+                     binds=a.binds + cnt.binds + b.binds + [(t, "(Py.rep %s %s %s)" % (a.lean, cnt.lean, cx.env["expo.kind"].lean))])
         if n == "hasattr" and len(node.args) == 2 and is_name(node.args[0], "self") and \
                 isinstance(node.args[1], ast.Constant) and node.args[1].value == "_hash" and "hashed" in cx.env:
             return E("hashed", "bool")
@@ -395,6 +441,28 @@ def tr_call(node, cx):
             return E("hashed", "bool")      # the stored hash VALUE being 0 is outside the model (TRUSTED)
         fail(node, "call of %s outside the vocabulary" % n)
     if isinstance(f, ast.Attribute):
+        if f.attr == "is_polynomial" and not node.args and not node.keywords:
+            x = tr_expr(f.value, cx)
+            if x.ty != "poly":
+                fail(node, ".is_polynomial() of kind %s" % x.ty)
+            return E("(isPolynomial %s.data)" % x.lean, "bool", binds=x.binds)
+        if f.attr == "terms" and not node.args:
+            x = tr_expr(f.value, cx)
+            kws = {}
+            for k in node.keywords:
+                if k.arg not in ("sort", "reverse") or not (isinstance(k.value, ast.Constant) and k.value.value in (True, False)
+                                                              and isinstance(k.value.value, bool)):
+                    fail(node, ".terms(...) keyword")
+                kws[k.arg] = k.value.value
+            if x.ty != "poly" or kws.get("sort", True) is not True:
+                fail(node, ".terms() unsorted / of kind %s" % x.ty)
+            # sort="auto" is True for integer powers (the typing of the model)
+            return E("(%s %s.data)" % ("sortDesc" if kws.get("reverse", False) else "sortAsc", x.lean), "pairs", binds=x.binds)
+        if f.attr == "copy" and not node.args and not node.keywords:
+            x = tr_expr(f.value, cx)
+            if x.ty != "poly":
+                fail(node, ".copy() of kind %s" % x.ty)
+            return E("(py_copy %s none)" % x.lean, "poly", binds=x.binds)
         if is_name(f.value, "it") and f.attr == "chain" and node.args and not node.keywords:
             parts = []
             for a in node.args:
@@ -471,6 +539,9 @@ def tr_eq(a, b, node):
     if all(t in ("int", "intlit") for t in tys):
         a, b = coerce(a, "int", node), coerce(b, "int", node)
         return "decide (%s = %s)" % (a.lean, b.lean)
+    if "expo" in tys and all(t in ("expo", "intlit") for t in tys):
+        # an exponent (int / bool / float of integral value) against an int literal: equality of the values
+        return "decide (%s = %s)" % (a.lean, b.lean)
     if "val" in tys:
         a, b = coerce(a, "val", node), coerce(b, "val", node)
         return "PyVal.eq %s %s" % (a.lean, b.lean)
@@ -495,6 +566,8 @@ def tr_expr(node, cx):
             return E("none", "none")
         if v is True or v is False:
             return TRUE() if v else FALSE()
+        if isinstance(v, str) and v.isidentifier():
+            return E('"%s"' % v, "str", const=v)
         if isinstance(v, int):
             return E(str(v) if v >= 0 else "(%d)" % v, "intlit", lit=v)
         if isinstance(v, float) and v == v and abs(v) != float("inf"):
@@ -545,6 +618,8 @@ def tr_expr(node, cx):
     if isinstance(node, ast.UnaryOp):
         if isinstance(node.op, ast.Not):
             e = tr_expr(node.operand, cx)
+            if e.ty == "dict":
+                return E("%s.isEmpty" % e.lean, "bool", binds=e.binds)      # truth value of a dictionary
             if e.ty != "bool":
                 fail(node, "not of a non-boolean")
             if e.const is not None:
@@ -562,12 +637,26 @@ def tr_expr(node, cx):
     if isinstance(node, ast.BinOp):
         if isinstance(node.op, ast.Div):
             return tr_div(node.left, node.right, cx, node)
+        if isinstance(node.op, ast.Pow):
+            a, b = tr_expr(node.left, cx), tr_expr(node.right, cx)
+            if a.ty in ("num", "intlit") and b.ty == "expo" and "expo.kind" in cx.env:
+                t = cx.fresh()
+                return E(t, "num", binds=a.binds + b.binds + [(t, "(Py.pow %s %s %s)" % (coerce(a, "num").lean, b.lean,
+                                                                                       cx.env["expo.kind"].lean))])
+            if a.ty == "num" and b.ty in ("int", "intlit") and not a.binds and not b.binds:
+                if ("nonzero", a.lean) not in cx.facts:
+                    fail(node, "number ** int where the number is not known to be != 0 (0 ** negative raises)")
+                return E("(PyNum.powInt %s %s)" % (a.lean, coerce(b, "int").lean), "num")
+            fail(node, "** between kinds %s and %s" % (a.ty, b.ty))
         ops = {ast.Add: "+", ast.Sub: "-", ast.Mult: "*"}
         if type(node.op) not in ops:
             fail(node, "binary operator")
         o = ops[type(node.op)]
         a, b = tr_expr(node.left, cx), tr_expr(node.right, cx)
         binds = a.binds + b.binds
+        if "expo" in (a.ty, b.ty) and all(t in ("int", "intlit", "expo") for t in (a.ty, b.ty)):
+            # the VALUE of the exponent arithmetic; its kind (float stays float, bool becomes int) rides on `ek`
+            return E("(%s %s %s)" % (a.lean, o, b.lean), "expo", binds=binds)
         if all(t in ("int", "intlit") for t in (a.ty, b.ty)):
             a, b = coerce(a, "int"), coerce(b, "int")
             return E("(%s %s %s)" % (a.lean, o, b.lean), "int", binds=binds)
@@ -598,6 +687,11 @@ def tr_expr(node, cx):
             return TRUE() if r != neg else FALSE()
         a, b = tr_expr(ln, cx), tr_expr(rn, cx)
         binds = a.binds + b.binds
+        if isinstance(op, ast.Eq) and "str" in (a.ty, b.ty):
+            # a flag parameter (True / False / "auto") against a string constant: decided by the kind of the flag
+            if not all(x.ty == "str" or (x.ty == "bool" and x.const is not None) for x in (a, b)):
+                fail(node, "== of a string and a value that is not a decided flag")
+            return TRUE() if (a.ty == b.ty and a.const == b.const) else FALSE()
         if isinstance(op, ast.Eq):
             return E(tr_eq(a, b, node), "bool", binds=binds)
         if isinstance(op, ast.NotEq):
@@ -633,7 +727,16 @@ def tr_expr(node, cx):
         a, b = tr_expr(node.body, cx), tr_expr(node.orelse, cx)
         a, b = unify(a, b, node)
         if a.binds or b.binds:
-            fail(node, "effect inside a conditional expression")
+            if not cx.fx:
+                fail(node, "effect inside a conditional expression")
+            # only the chosen branch is evaluated: the effects stay inside their branch
+            def arm(e):
+                inner = "(Except.ok %s)" % e.lean
+                for (t_, ex) in reversed(e.binds):
+                    inner = ex if inner == "(Except.ok %s)" % t_ else "(Except.bind %s (fun %s => %s))" % (ex, t_, inner)
+                return inner
+            t0 = cx.fresh()
+            return E(t0, a.ty, binds=[(t0, "(if %s then %s else %s)" % (t.lean, arm(a), arm(b)))])
         return E("(if %s then %s else %s)" % (t.lean, a.lean, b.lean), a.ty)
     if isinstance(node, ast.Call):
         return tr_call(node, cx)
@@ -858,15 +961,24 @@ def tr_block(stmts, cx, ind, node):
             c.env[t.id] = E(n, e.ty)
             for k in [k for k in c.env if k.startswith(t.id + ".")]:
                 del c.env[k]
+            if isinstance(s.value, ast.Call) and is_name(s.value.func, "thub") and len(s.value.args) == 2 and \
+                    is_name(s.value.args[0], t.id) and t.id in cx.env and ("nonzero", cx.env[t.id].lean) in cx.facts:
+                c.facts.add(("nonzero", n))          # thub of a number is the number
+            if e.ty == "pairs" and e.lean.startswith("(sortDesc ") and ("nonempty", e.lean[len("(sortDesc "):-1]) in cx.facts:
+                c.facts.add(("nonempty", n))         # sorting keeps the length
             return wrap_binds(e.binds, ["%slet %s := %s" % (ind, n, e.lean)] + tr_block(rest, c, ind, node), ind)
         if isinstance(t, ast.Tuple) and len(t.elts) == 2 and all(isinstance(x, ast.Name) for x in t.elts):
             e = tr_expr(s.value, cx)
             if e.ty != "pair" or e.binds:
                 fail(s, "unpacking of something that is not a (power, coefficient) pair")
+            pre, src_ = [], e.lean
+            if "\n" in src_:
+                src_ = cx.fresh()
+                pre = ["%slet %s := %s" % (ind, src_, e.lean)]
             a, b = cx.local(t.elts[0].id), cx.local(t.elts[1].id)
             c.env[t.elts[0].id] = E(a, "int")
             c.env[t.elts[1].id] = E(b, "num")
-            return ["%slet %s := %s.1" % (ind, a, e.lean), "%slet %s := %s.2" % (ind, b, e.lean)] + tr_block(rest, c, ind, node)
+            return pre + ["%slet %s := %s.1" % (ind, a, src_), "%slet %s := %s.2" % (ind, b, src_)] + tr_block(rest, c, ind, node)
         if self_target(t) and cx.mut:
             nm = "self." + t.attr
             e = coerce(tr_expr(s.value, cx), "dict" if t.attr == "_data" else "val", s)
@@ -896,6 +1008,15 @@ def tr_block(stmts, cx, ind, node):
         n = let_name(nm, cx)
         c.env[nm] = E(n, "dict")
         return ["%slet %s := del %s %s" % (ind, n, D.lean, K.lean)] + tr_block(rest, c, ind, node)
+    if isinstance(s, ast.Try):
+        # try: X = self.terms(sort=True, reverse=True) / except TypeError: raise ... -- integer powers are always sortable,
+        # so the handler is dead under the typing of the model
+        if not (len(s.body) == 1 and isinstance(s.body[0], ast.Assign) and not s.orelse and not s.finalbody
+                and len(s.handlers) == 1 and is_name(s.handlers[0].type, "TypeError") and s.handlers[0].name is None
+                and len(s.handlers[0].body) == 1 and isinstance(s.handlers[0].body[0], ast.Raise)
+                and isinstance(s.body[0].value, ast.Call) and is_attr(s.body[0].value.func, "self", "terms")):
+            fail(s, "try statement that is not `try: X = self.terms(...) except TypeError: raise ...`")
+        return tr_block([s.body[0]] + rest, cx, ind, node)
     if isinstance(s, ast.If):
         return tr_if(s, rest, cx, ind, node)
     if isinstance(s, ast.For):
@@ -943,8 +1064,22 @@ def tr_if(s, rest, cx, ind, node):
             isinstance(test.left, ast.Call) and is_name(test.left.func, "len") and len(test.left.args) == 1:
         x = tr_expr(test.left.args[0], cx)
         c.facts.add(("len1", x.lean + ".data" if x.ty == "poly" else x.lean))
+    cn = cx
+    if terminates(s.body) and not s.orelse:
+        # facts the REST may rely on once the guarded return did not happen: x != 0, D not empty
+        cn = cx.child()
+        if isinstance(test, ast.Compare) and len(test.ops) == 1 and isinstance(test.ops[0], ast.Eq) and \
+                isinstance(test.comparators[0], ast.Constant) and test.comparators[0].value == 0 and \
+                type(test.comparators[0].value) is int and isinstance(test.left, ast.Name):
+            x = tr_expr(test.left, cx)
+            if x.ty == "num":
+                cn.facts.add(("nonzero", x.lean))
+        if isinstance(test, ast.UnaryOp) and isinstance(test.op, ast.Not):
+            x = tr_expr(test.operand, cx)
+            if x.ty == "dict":
+                cn.facts.add(("nonempty", x.lean))
     yes = tr_block(body_rest, c, ind + "  ", node)
-    no = tr_block(else_rest, cx, ind + "  ", node)
+    no = tr_block(else_rest, cn, ind + "  ", node)
     return ["%sif %s then (" % (ind, t.lean)] + yes + ["%s) else (" % ind] + no + ["%s)" % ind]
 
 
@@ -1206,6 +1341,30 @@ def translate(src):
         out.append(emit("py_truediv" + suffix, [("self", "ZPoly"), ("other", LEAN_TY[oty])], "poly", True,
                         tr_block(fn.body, cx, "  ", fn), "`Poly.__truediv__`, %s" % what))
 
+    # --- __pow__ with a number exponent (value `other`, kind `ek`); the Poly-exponent prologue is decided away ------
+    fn = the_method(poly, "__pow__")
+    check_sig(fn, ["self", "other"], [])
+    cx = base_cx("polyref", fx=True)
+    cx.env["other"] = E("other", "expo")
+    cx.env["expo.kind"] = E("ek", "marker")
+    out.append(emit("py_pow", [("self", "ZPoly"), ("other", "Int"), ("ek", "ExpKind")], "polyref", True,
+                    tr_block(fn.body, cx, "  ", fn),
+                    "`Poly.__pow__`, other a number of integral value `other` and kind `ek` (int / bool / float); "
+                    "`none` = the object `self` itself"))
+
+    # --- __call__ on a number: one definition per kind of the flag `horner` --------------------------------
+    fn = the_method(poly, "__call__")
+    check_sig(fn, ["self", "value", "horner"], ["'auto'"])
+    arms = []
+    for ctor, flag in (("auto", E('"auto"', "str", const="auto")), ("yes", TRUE()), ("no", FALSE())):
+        cx = base_cx("val")
+        cx.env["value"] = E("value", "num")
+        cx.env["horner"] = flag
+        arms += ["  | .%s => (" % ctor] + tr_block(fn.body, cx, "      ", fn) + ["    )"]
+    out.append(emit("py_call", [("self", "ZPoly"), ("value", "PyNum"), ("horner", "Horner")], "val", False,
+                    ["  match horner with"] + arms,
+                    "`Poly.__call__(value, horner)` for a number `value`, per kind of the flag (\"auto\" / True / False)"))
+
     head = ["/- GENERATED by harness/props/c07_tr.py from audiolazy/lazy_poly.py (method bodies of `Poly` / `PolyMeta` read with",
             "   `ast`, translated statement by statement into the vocabulary of ALV/Model/C07Zero.lean + ALV/Model/C07Src.lean).",
             "   Do not edit: rewritten on every check.  `ALV.Props.C07.src_*_is_model` prove these definitions equal to the",
@@ -1219,6 +1378,8 @@ TRANSLATED = [
     "Poly.__getitem__", "Poly.__setitem__", "Poly.copy", "Poly.diff", "Poly.integrate", "PolyMeta.__unary__ (-p, +p)",
     "PolyMeta.__rbinary__ (c + p, c - p, c * p)", "PolyMeta.__operators__", "Poly.__add__", "Poly.__sub__", "Poly.__mul__",
     "Poly.__eq__", "Poly.__ne__", "Poly.__truediv__",
+    "Poly.__pow__ (number exponent: int / bool / float of integral value; exponent 0, empty, one term, reduce over copies)",
+    "Poly.__call__ (number value; horner = 'auto' / True / False: empty, value == 0, Horner-like scheme with its closure, direct sum)",
 ]
 
 
@@ -1249,11 +1410,12 @@ def regenerate(eng=None):
 
 
 NOT_TRANSLATED = {
-    "Poly.__pow__": "`reduce(operator.mul, [self.copy()] * (other - 1) + [self])` (list repetition by a possibly negative / float "
-                    "count, the result may be `self` itself) and `v ** other` raising ZeroDivisionError: the model `powZ` is "
-                    "organised by the number of terms and returns an alias marker; no faithful statement-by-statement image",
-    "Poly.__call__": "closure `horner_step` over a re-bound `value`, `reduce`, `try/except TypeError`, `sum(...)` of `**` terms that "
-                     "may raise; the model `callZ` is total (it relies on the `value == 0` shortcut): outside the subset",
+    "Poly.__pow__ with a Poly exponent": "the prologue `if isinstance(other, Poly): ... other = other[0]` re-types `other` from an "
+                                         "instance to a coefficient OR the zero (any value); the model `powPolyZ` reads it through "
+                                         "`getZ` and a classification of the number: tied by sampling only",
+    "Poly.__call__ with a Poly value": "`Poly(sum(coeff * value ** power ...), self.zero)`: a sum of instances built by the reflected "
+                                       "operators (`0 + term`), each `value ** power` through __pow__'s alias marker; the model "
+                                       "`composeZ` is tied by sampling (and `erase_compose` relates it to the field model)",
     "Poly.__hash__": "`hash((frozenset(items), zero))`: the model abstracts CPython's frozenset / tuple hash (TRUSTED)",
     "Poly.values / terms / is_polynomial / is_laurent / order": "generators and `sorted` / `max`; tied by sampling only",
     "lagrange.func / lagrange.poly": "`zip(*pairs)`, nested closures, a lambda applied to a duck-typed argument (number or Poly)",
@@ -1264,7 +1426,7 @@ THEOREMS = ["src_init_is_model", "src_zero_is_model", "src_zero_set_is_model", "
             "src_setitem_is_model", "src_copy_is_model", "src_diff_is_model", "src_integrate_is_model", "src_unary_is_model",
             "src_rbinary_is_model", "src_operators_is_model", "src_add_is_model", "src_sub_is_model", "src_mul_is_model",
             "src_scalar_is_model", "src_eq_is_model", "src_eq_num_is_model", "src_ne_is_model", "src_truediv_is_model",
-            "src_truediv_num_is_model"]
+            "src_truediv_num_is_model", "src_pow_is_model", "src_call_is_model"]
 
 # deliberate edits of the (normalised: `ast.unparse`) source text; each must change the translation or be refused
 SELFTEST_EDITS = [
@@ -1284,6 +1446,18 @@ SELFTEST_EDITS = [
     ("__setitem__: the zero test is dropped", "if isinstance(coeff, Stream) or coeff != self.zero:", "if isinstance(coeff, Stream) or coeff != 0:"),
     ("integrate: guard on the wrong power", "if -1 in self._data:", "if 1 in self._data:"),
     ("__truediv__: shifts the powers the wrong way", "((k - delta, operator.truediv(v, value))", "((k + delta, operator.truediv(v, value))"),
+    ("__pow__: exponent 1 answers the constant", "if other == 0:\n            return Poly(1, zero=self.zero)",
+     "if other == 1:\n            return Poly(1, zero=self.zero)"),
+    ("__pow__: the `v == 1` shortcut is dropped", "1 if v == 1 else v ** other", "v ** other"),
+    ("__pow__: powers added instead of multiplied", "((k * other, 1 if v == 1", "((k + other, 1 if v == 1"),
+    ("__pow__: one factor too many", "[self.copy()] * (other - 1) + [self]", "[self.copy()] * other + [self]"),
+    ("__call__: Horner step merges powers off by one", "scale = value if opower == npower + 1 else value ** (opower - npower)",
+     "scale = value if opower == npower + 2 else value ** (opower - npower)"),
+    ("__call__: the final power of the Horner scheme is lost", "return result * value ** last_power", "return result"),
+    ("__call__: the shortcut tests value == 1", "if value == 0:", "if value == 1:"),
+    ("__call__: Horner step adds in the wrong place", "return (npower, ncoeff + oresult * scale)", "return (npower, (ncoeff + oresult) * scale)"),
+    ("__call__: Horner scheme over ascending powers", "pairs = self.terms(sort=True, reverse=True)", "pairs = self.terms(sort=True, reverse=False)"),
+    ("__pow__: the last factor is a copy too", "[self.copy()] * (other - 1) + [self])", "[self.copy()] * (other - 1) + [self.copy()])"),
 ]
 
 
